@@ -58,9 +58,11 @@ def run_impl(op, inp):
             time.sleep(slow[1])
         cmd = apdu[1]
         if who is not None and who == inp.get("fault") and not getattr(local, "faulted", False):
-            # the link drops on this client's first exchange
-            local.faulted = True
-            return ("r",)
+            # the link drops on this client's first exchange — or, with `fault_at`, its n-th exchange times out
+            local.seen = getattr(local, "seen", 0) + 1
+            if local.seen > inp.get("fault_at", 0):
+                local.faulted = True
+                return ("t",) if "fault_at" in inp else ("r",)
         if cmd == 0x04:
             return ("d", key_for(apdu[2:]))
         if cmd == 0x02:
@@ -70,7 +72,9 @@ def run_impl(op, inp):
         if cmd == 0x20:
             op = apdu[2]
             if op == 1:
-                return ("d", bytes([0x80, 0x20, 1, apdu[3]]) + bytes([apdu[3]]) * 32)
+                # what the device holds is stamped with the client it is being read for: a reply built from
+                # what was read for someone else shows
+                return ("d", bytes([0x80, 0x20, 1, apdu[3]]) + bytes([apdu[3]]) * 31 + bytes([(who or 0) & 0xFF]))
             if op == 2:
                 return ("d", bytes([0x80, 0x20, 2, 5]))
             return ("d", bytes([0x80, 0x20, 3, 0, 1, 0]))
@@ -170,6 +174,9 @@ def run_impl(op, inp):
             ok &= r.get("signature") == {"r": h[:16].hex(), "s": h[16:].hex()}
         elif req["command"] == "signerHeartbeat":
             ok &= r.get("message") == req["udValue"] + b"msg".hex()
+        elif req["command"] == "blockchainState":
+            st = r.get("state", {}) if isinstance(r.get("state"), dict) else {}
+            ok &= r.get("errorcode") == 0 and str(st.get("best_block", ""))[-2:] == "%02x" % (i & 0xFF)
         else:
             ok &= r.get("errorcode") == 0
     ids = [w for (_p, _t, w) in log]
@@ -233,6 +240,19 @@ def fault_cases(rng, n, k=8):
         if reqs[f]["command"] not in ("sign", "getPubKey"):
             reqs[f] = {"command": "getPubKey", "version": 5, "keyId": "m/44'/0'/0'/0/0"}
         out.append(Case(OP, {"requests": reqs, "seed": rng.getrandbits(32), "fault": f}, stream="fault", clients=k))
+    # a timeout in the middle of a multi-exchange request served after others of its kind: the client gets the
+    # device error of ITS request, never something kept from an earlier one
+    for _ in range(n):
+        reqs = [{"command": "blockchainState", "version": 5}, {"command": "blockchainParameters", "version": 5},
+                {"command": "signerHeartbeat", "version": 5, "udValue": bytes(rng.getrandbits(8) for _ in range(16)).hex()},
+                {"command": "blockchainState", "version": 5}]
+        last = rng.choice([{"command": "blockchainState", "version": 5}, {"command": "blockchainState", "version": 5},
+                           {"command": "signerHeartbeat", "version": 5,
+                            "udValue": bytes(rng.getrandbits(8) for _ in range(16)).hex()}])
+        reqs.append(last)
+        out.append(Case(OP, {"requests": reqs, "seed": rng.getrandbits(32), "fault": len(reqs) - 1,
+                             "fault_at": rng.randrange(0, 5), "sequential": True}, stream="fault-timeout",
+                        clients=len(reqs)))
     return out
 
 
